@@ -38,16 +38,24 @@ BODIES = [
     ('count', ['N: usize'], ['x: usize'], 'usize', 'arr : [N]u8; arr.len + x'),
     ('twice', ['N: usize'], ['x: usize'], 'usize', 'count(N, x) * 2'),
     ('fwd', ['T: type', 'K: i32'], ['x: T'], 'T', 'scale(K, T, x) + T.(K)'),
+    # comptime parameters declared AFTER run-time parameters and used as run-time values (optional 6th element: the
+    # declaration order of all parameters)
+    ('rmul', ['N: usize'], ['x: usize'], 'usize', 'x * N + N', ['x', 'N']),
+    ('rmix', ['T: type', 'N: usize'], ['x: T', 'y: T'], 'T', 'mark(u64.(N)); x * T.(N) - y', ['T', 'x', 'N', 'y']),
+    ('rlast', ['K: i32', 'M: i32'], ['x: i32', 'y: i32'], 'i32', 'mark(u64.(K)); mark(u64.(M)); (x + K) * M - y', ['x', 'K', 'y', 'M']),
+    ('rfwd', ['N: usize'], ['x: usize'], 'usize', 'rmul(x + 1, N) + count(N, x)', ['x', 'N']),
 ]
 NESTED = {
     'nest': lambda b: [('absdiff', {'T': b['T']}), ('acc', {'T': b['T'], 'N': b['N']})],
     'twice': lambda b: [('count', {'N': b['N']})],
     'fwd': lambda b: [('scale', {'K': b['K'], 'T': b['T']})],
+    'rfwd': lambda b: [('rmul', {'N': b['N']}), ('count', {'N': b['N']})],
 }
 NESTED_BODY = {
     'nest': lambda b: 'absdiff__%s(acc__%s_%s(a, b), b)' % (b['T'], b['N'], b['T']),
     'twice': lambda b: 'count__%s(x) * 2' % b['N'],
     'fwd': lambda b: 'scale__%s_%s(x) + %s.(%s)' % (b['K'], b['T'], b['T'], b['K']),
+    'rfwd': lambda b: 'rmul__%s(x + 1) + count__%s(x)' % (b['N'], b['N']),
 }
 
 
@@ -61,7 +69,7 @@ def subst(text, binding):
 def gen_instances(rnd, n):
     res = []
     for _ in range(n):
-        name, cparams, rparams, ret, body = rnd.choice(BODIES)
+        name, cparams, rparams, ret, body = rnd.choice(BODIES)[:5]
         binding = {}
         for cp in cparams:
             pn, pt = [x.strip() for x in cp.split(':')]
@@ -81,14 +89,21 @@ def copy_name(name, binding):
 
 def sources(instances):
     lines = []
-    for name, cparams, rparams, ret, body in BODIES:
-        ps = ', '.join(['comptime ' + c for c in cparams] + rparams)
+    def ordered(spec, comptime_items, runtime_items):
+        """the parameters (or call arguments) of a generic in its declaration order"""
+        cn = [c.split(':')[0].strip() for c in spec[1]]; rn = [r.split(':')[0].strip() for r in spec[2]]
+        by = dict(zip(cn, comptime_items)); by.update(dict(zip(rn, runtime_items)))
+        order = spec[5] if len(spec) > 5 else cn + rn
+        return [by[n] for n in order]
+    for spec in BODIES:
+        name, cparams, rparams, ret, body = spec[:5]
+        ps = ', '.join(ordered(spec, ['comptime ' + c for c in cparams], rparams))
         lines.append('%s :: (%s) -> %s { %s }' % (name, ps, ret, body))
     obs = []
     seen = {}
     for idx, (name, binding) in enumerate(instances):
         spec = [b for b in BODIES if b[0] == name][0]
-        _, cparams, rparams, ret, body = spec
+        _, cparams, rparams, ret, body = spec[:5]
         cname = copy_name(name, binding)
         rp = [subst(p, binding) for p in rparams]
         rtypes = [p.split(':')[1].strip() for p in rp]
@@ -108,7 +123,7 @@ def sources(instances):
             lines.append('%s :: (%s) -> %s { %s }' % (cname, ', '.join(rp), subst(ret, binding), subst(b2, binding)))
             seen[cname] = True
         wname = 'call%d_%s' % (idx, cname)
-        lines.append('%s :: (%s) -> %s { %s(%s) }' % (wname, ', '.join(rp), subst(ret, binding), name, ', '.join(cargs + rnames)))
+        lines.append('%s :: (%s) -> %s { %s(%s) }' % (wname, ', '.join(rp), subst(ret, binding), name, ', '.join(ordered(spec, cargs, rnames))))
         obs.append({'wrapper': wname, 'copy': cname, 'types': rtypes, 'ret': subst(ret, binding), 'generic': name, 'binding': dict(binding)})
     return lines, obs
 
@@ -135,7 +150,10 @@ def run(chk, tier, seed):
              ('loopbrk', {'T': 'u8', 'N': '3'}), ('nest', {'T': 'i32', 'N': '2'}), ('acc', {'T': 'i32', 'N': '2'}),
              # the same outer generic instantiated again: nested generic calls must follow the outer call's own arguments
              ('nest', {'T': 'i32', 'N': '3'}), ('nest', {'T': 'u8', 'N': '2'}), ('nest', {'T': 'i32', 'N': '2'}),
-             ('twice', {'N': '2'}), ('twice', {'N': '5'}), ('twice', {'N': '2'}), ('fwd', {'T': 'u16', 'K': '3'}), ('fwd', {'T': 'i64', 'K': '4'})]
+             ('twice', {'N': '2'}), ('twice', {'N': '5'}), ('twice', {'N': '2'}), ('fwd', {'T': 'u16', 'K': '3'}), ('fwd', {'T': 'i64', 'K': '4'}),
+             # comptime parameters that are not first in the parameter list
+             ('rmul', {'N': '3'}), ('rmul', {'N': '7'}), ('rmix', {'T': 'i32', 'N': '2'}), ('rmix', {'T': 'u8', 'N': '3'}), ('rlast', {'K': '4', 'M': '9'}),
+             ('rlast', {'K': '2', 'M': '3'}), ('rfwd', {'N': '2'}), ('rfwd', {'N': '3'})]
     instances = fixed + gen_instances(rnd, 14 if tier == "quick" else 900)
     lines, obs = sources(instances)
     src = clifcheck.PRELUDE + '\n'.join(lines) + '\n'
